@@ -24,9 +24,11 @@ CONVERTERS = [
     [mrec("lsid", "urn:lsid:", ["ls"]), mrec("t", "/terms/"), mrec("GO", "http://go/")],
     # prefixes spelled like paths a web framework may serve on its own (Flask's /static/<path>, FastAPI's /docs, /redoc, /openapi.json)
     [mrec("static", "http://s/", ["docs"]), mrec("openapi.json", "http://o/", ["redoc"])],
+    # a URI-prefix synonym of one record lies below the canonical URI prefix of another: expansions of the latter look like URIs of the former
+    [mrec("obo", "http://p/obo/"), mrec("GO", "http://amigo/GO:", [], ["http://p/obo/GO_", "http://p/obo/x_"]), mrec("ab", "http://p/obo/ab", [], ["http://p/obo/1"])],
 ]
 UNKNOWN = ["zz", "Go", "urn", "static", "docs", "favicon.ico"]
-SEGMENTS = ["1", "ab", "10.1", "x_y", "a:b", "a:b:c", ":5", "1::2", "5:", "lsid:7"]   # the last three: leading / doubled / trailing delimiter
+SEGMENTS = ["1", "ab", "10.1", "x_y", "a:b", "a:b:c", ":5", "1::2", "5:", "lsid:7", "GO_1"]   # the last three: leading / doubled / trailing delimiter
 DELIMS = [":", "/"]
 SAFE_PUNCT = list("-._~!$&'()*+,;=:@")
 
